@@ -143,6 +143,21 @@ func runC09(res *result) {
 					Transport: tr, Proto: pr, Headers: hm, Cid: cid, TimeoutMs: to, Outcome: &outcomeSpec{Kind: "return", Value: iv(int64(n) + 1), RespHdr: respHdr}}
 				plan.Ops = append(plan.Ops, drvOp{Op: "call", Call: rpc})
 				exps = append(exps, exp{rpc, fmt.Sprintf("rpc echo headers=%v cid=%q timeout=%dms %s/%s", hm, cid, to, tr, pr)})
+				if n%5 == 0 && tr != "tcp" {
+					// the caller's FContext already carries response headers of the same names: left over
+					// from an earlier call with the same context, or set by the application
+					again := *rpc
+					again.Repeat = true
+					plan.Ops = append(plan.Ops, drvOp{Op: "call", Call: &again})
+					exps = append(exps, exp{&again, fmt.Sprintf("rpc echo, second call with the same FContext, headers=%v cid=%q timeout=%dms %s/%s", hm, cid, to, tr, pr)})
+					pre := *rpc
+					pre.PresetRespHeaders = map[string]string{}
+					for k := range respHdr {
+						pre.PresetRespHeaders[k] = "stale"
+					}
+					plan.Ops = append(plan.Ops, drvOp{Op: "call", Call: &pre})
+					exps = append(exps, exp{&pre, fmt.Sprintf("rpc echo, response headers preset on the caller's FContext, headers=%v cid=%q timeout=%dms %s/%s", hm, cid, to, tr, pr)})
+				}
 				if n%4 == 0 {
 					ow := &callSpec{Kind: "rpc", Service: "Svc", Method: "Fire", WireMethod: "fire", Args: []*idl.V{iv(1)}, ArgTypes: []*idl.RT{i32}, Oneway: true,
 						Transport: transports[n%2], Proto: pr, Headers: hm, Cid: cid, TimeoutMs: to, Outcome: &outcomeSpec{Kind: "return"}}
